@@ -434,6 +434,85 @@ example : SameEntries (⟨1, 1, [[2]]⟩ : Mat ℝ) ⟨1, 1, [[2], []]⟩ := by
   | 1, j => cases j <;> rfl
   | i+2, j => rfl
 
+/-- **the predicted label is a most probable one**: for the output `O` of a cross-entropy / binary cross-entropy last
+layer, the label `_compute_predictions(O)` gives to node `i` maximises row `i` of `predict_proba` -/
+theorem prediction_is_most_probable (loss : LossKind) (n c : Nat) (hc : 0 < c) (e : Nat → Nat → ℝ) :
+    ∃ labs, computePredictions (actOutput (lossAct loss) (mk' n c e)) = .ok labs ∧
+      ∀ i, i < n → ∀ k, k < (if c = 1 then 2 else c) →
+        (predictProba loss (actOutput (lossAct loss) (mk' n c e))).get i k ≤
+          (predictProba loss (actOutput (lossAct loss) (mk' n c e))).get i (labs.getD i 0) := by
+  rw [actOutput_mk']
+  obtain ⟨labs, hl, _, hspec⟩ := computePredictions_spec n c hc (fun i k => Spec.actFn (lossAct loss) c (e i) k)
+  refine ⟨labs, hl, ?_⟩
+  intro i hi k hk
+  obtain ⟨hok, _⟩ := hspec i hi
+  unfold predictProba
+  simp only [mk'_c, mk'_r]
+  by_cases h1 : c = 1
+  · subst h1
+    simp only [if_true] at hk ⊢
+    unfold Spec.predictionOk at hok
+    simp only [if_true, beq_iff_eq, num_lt, num_frac, decide_eq_true_eq] at hok
+    have hO : (mk' n 1 fun i k => Spec.actFn (lossAct loss) 1 (e i) k).get i 0 = Spec.actFn (lossAct loss) 1 (e i) 0 :=
+      get_mk'_of_lt _ hi (by decide)
+    set o := Spec.actFn (lossAct loss) 1 (e i) 0 with ho
+    have hP : ∀ k', k' < 2 → (mk' n 2 fun i k =>
+          if k = 0 then 1 - (mk' n 1 fun i k => Spec.actFn (lossAct loss) 1 (e i) k).get i 0
+          else (mk' n 1 fun i k => Spec.actFn (lossAct loss) 1 (e i) k).get i 0).get i k' =
+        if k' = 0 then 1 - o else o := by
+      intro k' hk'
+      rw [get_mk'_of_lt _ hi hk', hO]
+    by_cases hgt : ((1 : ℕ) : ℝ) / ((2 : ℕ) : ℝ) < o
+    · rw [if_pos hgt] at hok
+      rw [hok, hP k hk, hP 1 (by decide)]
+      simp only [one_ne_zero, if_false]
+      split_ifs
+      · norm_num at hgt; linarith
+      · exact le_refl _
+    · rw [if_neg hgt] at hok
+      rw [hok, hP k hk, hP 0 (by decide)]
+      simp only [if_true]
+      split_ifs
+      · exact le_refl _
+      · norm_num at hgt; linarith
+  · simp only [h1, if_false] at hk ⊢
+    unfold Spec.predictionOk at hok
+    simp only [h1, if_false, Bool.and_eq_true, decide_eq_true_eq, List.all_eq_true, List.mem_range,
+      Bool.not_eq_true', num_lt, decide_eq_false_iff_not, not_lt] at hok
+    obtain ⟨hlt, hmax⟩ := hok
+    have hrow : ∀ k', k' < c → (mk' n c fun i k => Spec.actFn (lossAct loss) c (e i) k).get i k' =
+        Spec.actFn (lossAct loss) c (e i) k' := fun k' hk' => get_mk'_of_lt _ hi hk'
+    cases loss with
+    | crossEntropy =>
+      simp only []
+      rw [hrow k hk, hrow _ hlt]
+      exact hmax k hk
+    | binaryCrossEntropy =>
+      simp only []
+      rw [get_mk'_of_lt _ hi hk, get_mk'_of_lt _ hi hlt, hrow k hk, hrow _ hlt]
+      have hsum : (sumTo c fun l => (mk' n c fun i k => Spec.actFn (lossAct .binaryCrossEntropy) c (e i) k).get i l)
+          = ∑ l ∈ range c, Spec.actFn .sigmoid c (e i) l := by
+        rw [sumTo_eq]
+        exact Finset.sum_congr rfl fun l hl => hrow l (mem_range.mp hl)
+      have hpos : 0 < ∑ l ∈ range c, Spec.actFn .sigmoid c (e i) l :=
+        Finset.sum_pos (fun l _ => sigmoidFn_pos c (e i) l) ⟨0, mem_range.mpr hc⟩
+      rw [hsum]
+      exact div_le_div_of_nonneg_right (hmax k hk) hpos.le
+
+/-- **CSR containers**: the order of the stored entries inside a row (unsorted indices) does not matter, and neither
+does the container as long as the rows hold the same (column, value) pairs: the layer returns the same output. -/
+theorem forward_csr_row_order_irrelevant (cfg : LayerCfg) (m m' : Csr ℝ) (X W : Mat ℝ) (b : Option (List ℝ))
+    (hr : m.nRow = m'.nRow) (hc : m.nCol = m'.nCol)
+    (h : ∀ i, i < m.nRow → (csrEntries m i).Perm (csrEntries m' i)) :
+    forward cfg (csrToMat m) X W b = forward cfg (csrToMat m') X W b :=
+  forward_depends_on_entries cfg _ _ X X W b (csrToMat_perm m m' hr hc h) (SameEntries.refl X)
+
+/-- a value stored as two un-summed halves (duplicate entries of a CSR matrix) denotes the same entry -/
+theorem csr_duplicates_are_summed (j c : Nat) (v : ℝ) (rest : List (Nat × ℝ)) :
+    (((c, v / 2) :: (c, v / 2) :: rest).map fun e => if e.1 = j then e.2 else 0).sum =
+      (((c, v) :: rest).map fun e => if e.1 = j then e.2 else 0).sum :=
+  duplicate_entries_sum j c v rest
+
 /-- **left normalisation is the random-walk normalisation**: every row of `N(A)` (without self-embedding) with a
 non-zero weight sums to 1, a row of weight 0 is 0 (pseudo-inverse) -/
 theorem left_normalisation_rows (n m : Nat) (a : Nat → Nat → ℝ) (i : Nat) (hi : i < n) :
